@@ -189,9 +189,26 @@ def _bad_op(rng, sh, k, corrupt_fn=None):
              "ref_clash", "ref_clash", "hdr_multi", "rename_malformed", "del_id", "placeholder_clash",
              "invalid_then_rm", "self_mention", "unknown_then_clash", "hdr_bad_predefined", "header_add",
              "grp_jstring", "unknown_then_malformed", "set_field_none", "stale_handle", "stale_handle",
-             "anonymise_mentioned", "grp_edit", "grp_edit", "deep_nest"]
+             "anonymise_mentioned", "grp_edit", "grp_edit", "deep_nest", "refused_new_tag", "queued_then_flush"]
     kind = rng.choice(kinds)
     tags = gen_tags(rng, k)
+    if kind == "refused_new_tag" and ids:
+        # a tag is set, deleted (by None), then given a value that is refused at level 3; a legal value of another
+        # type follows
+        nm = rng.choice(ids)
+        tg = rng.choice(["zn", "zm"])
+        return kind, [{"op": "set_tag", "id": nm, "tag": tg, "value": rng.choice([1, 2.5, "abc"])},
+                      {"op": "set_tag", "id": nm, "tag": tg, "value": None},
+                      {"op": "set_tag", "id": nm, "tag": tg, "value": rng.choice(["bad\tvalue", "a\nb", ""])},
+                      {"op": "set_tag", "id": nm, "tag": tg, "value": rng.choice([5, "ok", [1, 2]])}]
+    if kind == "queued_then_flush" and v == "gfa1":
+        # (only has an effect while the version is undecided) lines queued, one of which will be refused, then
+        # the queue is processed by a direct call
+        a, b = sh.fresh(rng), sh.fresh(rng)
+        return kind, [{"op": "add", "line": "L\t%s\t+\t%s\t+\t*" % (a, b), "as": "str"},
+                      {"op": "add", "line": "P\t%s\t%s+,%s+\t*" % (a, a, b), "as": "str"},
+                      {"op": "add", "line": "P\t%s\t%s+,%s+\t*" % (sh.fresh(rng), a, b), "as": "str"},
+                      {"op": "flush"}]
     if kind == "deep_nest" and v == "gfa2" and ids:
         # groups nested several hundred levels deep over one line, which is then removed: the cascade reaches
         # every level (and does not depend on the interpreter's recursion limit)
